@@ -587,9 +587,13 @@ impl Database {
             let to_merge_vec = self.notification_list.reset();
             touched.extend(to_merge_vec.iter().copied());
             if to_merge_vec.len() < 4 {
+                #[cfg(feature = "verif-hooks")]
+                crate::verif::hit(crate::verif::Site::merge_all_simple);
                 ever_changed |= self.merge_simple(to_merge_vec, &mut touched);
                 break;
             }
+            #[cfg(feature = "verif-hooks")]
+            crate::verif::hit(crate::verif::Site::merge_all_strata);
             for table in to_merge_vec {
                 to_merge.insert(table);
             }
